@@ -956,9 +956,30 @@ def source_shape(g, LIB, RNG):
             continue
         if not any(f == 'src/range.rs' and a <= ln <= b for (f, a, b) in spans):
             bad.append('[range] src/range.rs:%d: a BoundSet / Range is built outside the functions under contract (`%s`)' % (ln, line.strip()[:70]))
+
+    # S8 (version grammar, C05): the names the grammar functions call resolve to winnow's items (the assumed contracts A15 are about
+    # those), the two limits have the values the reference grammar and the stand-in are written for, FromStr delegates to parse
+    WINNOW_NAMES = {'ascii': ('digit1', 'space0'), 'combinator': ('alt', 'eof', 'opt', 'preceded', 'separated', 'terminated'), 'token': ('literal', 'take_while'), 'stream': ('AsChar',), '': ('PResult', 'Parser')}
+    for sub, names in WINNOW_NAMES.items():
+        m = re.search(r'^use winnow::%s\{([^}]*)\};' % ((sub + '::') if sub else ''), lib, re.M)
+        got = set(x.strip() for x in m.group(1).split(',')) if m else set()
+        for n in names:
+            if n not in got:
+                bad.append('[version-grammar] `%s` is not imported from winnow::%s: the combinator contracts (A15) are about winnow\'s items' % (n, sub))
+    for n in [x for v in WINNOW_NAMES.values() for x in v] + ['ErrMode']:
+        if re.search(r'^\s*(?:pub(?:\([^)]*\))?\s+)?(?:fn|struct|enum|trait|type|mod|macro_rules!)\s+%s\b' % n, lib, re.M):
+            bad.append('[version-grammar] a local item named `%s` shadows the winnow item the contracts are about' % n)
+    if len(re.findall(r'^use winnow\b', lib, re.M)) != 6 or re.search(r'\bas\s+\w+\s*[,}]', ' '.join(re.findall(r'^use winnow[^;]*;', lib, re.M))):
+        bad.append('[version-grammar] the `use winnow::..` lines of src/lib.rs changed (an extra import or a renaming `as`): a combinator name may mean something else')
+    if not re.search(r'^pub const MAX_SAFE_INTEGER: u64 = 900_719_925_474_099;', lib, re.M):
+        bad.append('[version-grammar] MAX_SAFE_INTEGER is not 900_719_925_474_099')
+    if not re.search(r'^pub const MAX_LENGTH: usize = 256;', lib, re.M):
+        bad.append('[version-grammar] MAX_LENGTH is not 256')
+    if not re.search(r'impl (?:std::str::|str::)?FromStr for Version \{\s*type Err = SemverError;\s*fn from_str\(s: &str\) -> Result<Self, Self::Err> \{\s*Version::parse\(s\)\s*\}\s*\}', lib):
+        bad.append('[version-grammar] `FromStr for Version` is not `Version::parse(s)`')
     for b in bad:
         # a deviation that can only concern the range layer leaves the properties about versions alone
-        g.lost_items.append(('source-shape:range' if b.startswith('[range]') else 'source-shape', b))
+        g.lost_items.append(('source-shape:range' if b.startswith('[range]') else ('source-shape:version-grammar' if b.startswith('[version-grammar]') else 'source-shape'), b))
     return bad
 
 
